@@ -1170,8 +1170,13 @@ VmTrap vm_core_execute(VmState *vm) {
                 return trap_error(vm, VM_ERR_TYPE_ERROR, "ARR_SET: not an array");
             }
             uint32_t idx = (uint32_t)(idx_v.tag == TAG_INT ? idx_v.as.i64 : 0);
-            vm_release(&vm->heap, vm_array_get(arr.as.array, idx));
-            vm_array_set(arr.as.array, idx, v);
+            if (idx < arr.as.array->length) {
+                vm_release(&vm->heap, vm_array_get(arr.as.array, idx));
+                vm_array_set(arr.as.array, idx, v);
+            } else {
+                /* vm_array_set ignores an out-of-range index: the popped value has no owner left */
+                vm_release(&vm->heap, v);
+            }
             stack_push(vm, arr);
             break;
         }
